@@ -26,10 +26,9 @@ LEVEL_NOTE = ("Trusted: Coq kernel, translator (ArchiveFileSuffix, hash.StringLe
               "AES-256-GCM, base64.RawURLEncoding (fields are modelled after decoding: its padding-bit and newline malleability yields the same bytes and "
               "the same request), url.Values parsing, URL.String/url.Parse (escape, './' guard, fragment cut, control bytes; scheme detection omitted), "
               "time.Now at millisecond resolution, os.Stat/MkdirAll (NUL and NAME_MAX only), NBS store creation (observed: only the table file appears).")
-THEOREMS = ["grpc_confined_guarded", "grpc_confined_refuted", "oracle_on_model_confinement", "unseal_seal", "unseal_sound", "tamper_rejected", "forged_payload_rejected", "window_enforced", "get_confined", "post_confined_guarded",
+THEOREMS = ["grpc_confined", "oracle_on_model_confinement", "unseal_seal", "unseal_sound", "tamper_rejected", "forged_payload_rejected", "window_enforced", "get_confined", "post_confined_guarded",
             "post_confined_refuted", "unseal_seal_escaped_refuted", "tamper_path_escaped_refuted", "parse_fmt_int"]
-REFUTED = ["confinement of the gRPC service layer as it is (getRepoPath/getOrCreateStore do not validate repo_path / repo_id: '..' and absolute paths reach DBCache.Get): grpc_confined_refuted — the validated variant is proved by grpc_confined_guarded",
-           "post_confined for the POST/PUT branch as it was before the fix (no clean-and-reject; F4): post_confined_refuted — the guarded branch is proved by post_confined_guarded", "unseal_seal for paths that need percent-encoding: unseal_seal_escaped_refuted",
+REFUTED = ["post_confined for the POST/PUT branch as it was before the fix (no clean-and-reject; F4): post_confined_refuted — the guarded branch is proved by post_confined_guarded", "unseal_seal for paths that need percent-encoding: unseal_seal_escaped_refuted",
            "tamper_rejected(path) for paths that need percent-encoding: tamper_path_escaped_refuted"]
 RULE = ("seal cases: URL paths (plain repo/hash paths, dot segments, doubled slashes, bytes that need percent-encoding, literal %2f, first-segment colon) x "
         "url-encoded queries x one mutation of the sealed URL (none, path, req dropped/garbled/bit-flipped/swapped with another sealed URL's, nonce "
@@ -41,7 +40,7 @@ ASSUMPTIONS = ["RawQuery of sealed URLs is a well-formed query string (no '#', n
                "lexical confinement: no symbolic links below the root (the model resolves paths as POSIX does without links)",
                "the DBCache is the standalone server's LocalCSCache (reproduced in the harness: package main cannot be imported)",
                "temporary files the NBS layer may create under os.TempDir are not counted as handler writes"]
-REQUIRED_TAGS = ["grpc-ok", "grpc-dotdot", "grpc-absolute", "grpc-repo-id", "seal-ok", "seal-rej-path", "seal-rej-open", "seal-rej-window", "seal-panic-nonce", "seal-nonplain", "get-200", "get-400", "get-404",
+REQUIRED_TAGS = ["reg-grpc-escape-rejected", "reg-post-escape-rejected", "grpc-ok", "grpc-dotdot", "grpc-absolute", "grpc-repo-id", "seal-ok", "seal-rej-path", "seal-rej-open", "seal-rej-window", "seal-panic-nonce", "seal-nonplain", "get-200", "get-400", "get-404",
                  "post-200", "post-404", "post-dotdot", "mode-sealed", "mode-raw", "nul", "longname"]
 COQ_SHARD = 600
 
@@ -420,6 +419,8 @@ def classify(case, out):
             t.append("grpc-repo-id")
         if _outside(o):
             t.append("OUTSIDE-ROOT")
+        if rp in (b"../x", b"../../esc/repo", b"/SB/r1/abs", b"../idesc") and o.get("gerr") and not o.get("touched"):
+            t.append("reg-grpc-escape-rejected")
         return t
     p = bytes(case["path"])
     m = case["method"]
@@ -437,6 +438,8 @@ def classify(case, out):
         t.append("double-slash")
     if _outside(o):
         t.append("OUTSIDE-ROOT")
+    if m in ("POST", "PUT") and p == b"/../x/" + HN[0] and case["mode"] == 0 and o["status"] == 400 and not o.get("touched"):
+        t.append("reg-post-escape-rejected")
     return t
 
 
@@ -453,10 +456,6 @@ def nontrivial(case, out):
 def match_known(finding, case, out):
     o = out.get("obs") or {}
     key = finding.get("key", "")
-    if key == "remotesrv.filehandler:POST-path-not-confined":
-        return case.get("kind") == "handle" and case.get("method") in ("POST", "PUT") and bool(_outside(o))
-    if key == "remotesrv.grpc:repo-path-not-confined":
-        return case.get("kind") == "grpc" and bool(_outside(o))
     if key == "remotesrv.sealer:escaped-path-roundtrip":
         # Seal puts EscapedPath() into the sealed request URI (escaped once more by String()), Unseal compares the
         # visible path with the *re-escaped* path: paths that need percent-encoding do not round-trip
